@@ -32,7 +32,7 @@ ASSUMES = ["vote counts and baselines are integers >= 0 (baseline turnout >= 1 f
 OUTSIDE = ["more units than the bound", "outlier-model exclusions (need > 20 reporting units)",
            "numerical behaviour of the LP solver / scipy bootstrap (stubbed as arbitrary)"]
 BOUNDS = {"quick": "NP: 4 reporting + <=2 nonreporting + <=1 unexpected, alphas {0.5}; GA: 7 reporting + <=2 nonreporting + "
-                   "<=1 unexpected, alphas {0.7}; 1 state, <=2 counties groups; estimand turnout; incl. the all-reporting feed (0 nonreporting units, with and without an unexpected unit)",
+                   "<=1 unexpected, alphas {0.7}; 1 state, <=2 counties groups; estimand turnout; a not yet reporting zero-baseline unit in its own county; incl. the all-reporting feed (0 nonreporting units, with and without an unexpected unit)",
           "thorough": "adds: 2 alphas, 2 estimands (dem, turnout), 3 nonreporting units"}
 OPTS = {"quick": dict(case_timeout_s=900, solver_timeout_ms=30000), "thorough": dict(case_timeout_s=3000, solver_timeout_ms=60000)}
 
@@ -47,6 +47,10 @@ def cases(tier):
                         continue
                     out.append(dict(name="%s_n%d_u%d_%s" % (pi, nnon, nunexp, layout), pi=pi, nrep=nrep, nnon=nnon,
                                     nunexp=nunexp, layout=layout, alphas=alphas, estimands=["turnout"], weight=nnon * 2 + nrep))
+    # a zero-baseline unit that has not reported yet (0 or few votes, own county): not modelled, hence final
+    for pi, nrep, alphas in (("nonparametric", 4, [0.5]), ("gaussian", 7, [0.7])):
+        out.append(dict(name="%s_n1_zero_nonreporting" % pi, pi=pi, nrep=nrep, nnon=1, nunexp=0, nzero=1, layout="two_counties",
+                        alphas=alphas, estimands=["turnout"], weight=nrep + 3))
     if tier == "thorough":
         out.append(dict(name="np_two_alphas", pi="nonparametric", nrep=5, nnon=2, nunexp=1, layout="two_counties",
                         alphas=[0.5, 0.6], estimands=["turnout"], weight=50))
@@ -66,6 +70,8 @@ def build(ctx, case):
     for i in range(case["nnon"]):
         sc.add(S.Unit("n%d" % i, county="c1" if (not two or i % 2 == 1) else "c2", kind="non",
                       base=prof[case["nrep"] + i]))
+    for i in range(case.get("nzero", 0)):
+        sc.add(S.Unit("z%d" % i, county="c3", kind="zero", pev=40, zero_baseline=True))
     for i in range(case["nunexp"]):
         # county parsed from the id (split on "_")
         sc.add(S.Unit(("c2_x%d" if two else "c1_x%d") % i, kind="unexp", in_baseline=False))
